@@ -335,8 +335,10 @@ func (db *DB) Merge() error {
 					skipEntry = true
 				}
 
-				// check if we have a new entry with same key and bucket
-				if r, _ := db.getRecordFromKey(entry.Meta.bucket, entry.Key); r != nil && !skipEntry {
+				// check if we have a new entry with same key and bucket (key/value
+				// records only: a list, set or sorted-set record is not superseded
+				// by a key/value pair that happens to have its bucket name and key)
+				if r, _ := db.getRecordFromKey(entry.Meta.bucket, entry.Key); r != nil && !skipEntry && entry.Meta.ds == DataStructureBPTree {
 					if r.H.fileID > int64(pendingMergeFId) {
 						skipEntry = true
 					} else if r.H.fileID == int64(pendingMergeFId) && r.H.dataPos > uint64(off) {
